@@ -205,6 +205,9 @@ func suffix(o Opts) string {
 	if o.TailTicks > 0 {
 		s += fmt.Sprintf("-gputail%d", o.TailTicks)
 	}
+	if o.GPUs > 1 {
+		s += fmt.Sprintf("-%dgpu-farflush%d", o.GPUs, o.FarFlushLatency)
+	}
 	return s
 }
 
